@@ -2,7 +2,7 @@
    O-tie: every bounds check the real code generator emits for the whole family (GenChecks.v, regenerated
    from vyper/codegen/core.py on every run) is syntactically one of the parametric templates of Checks.v. *)
 From Coq Require Import ZArith Bool List String Lia.
-From Verif Require Import Base.Word256 C03.LIR C04.AllocModel C04.AllocProofs C04.Checks C04.GenChecks.
+From Verif Require Import Base.Word256 Base.PyInt C03.LIR C03.VSL C04.AllocModel C04.AllocProofs C04.LegacyProofs C04.GenLegacy C04.LegacyTie C04.Frames C04.Concretize C04.Checks C04.GenChecks.
 Import ListNotations.
 Open Scope Z_scope.
 
@@ -13,6 +13,19 @@ Proof. vm_compute. reflexivity. Qed.
 Theorem observed_buffer_checks_are_template :
   forallb (fun t => match t with (s, l, n, obs) => lir_eqb obs (buf_check (LVar s) (LVar l) (LVar n)) end) buf_observed = true.
 Proof. vm_compute. reflexivity. Qed.
+
+(* round 2: append / pop / extract32 / slice (legacy) and subscript / slice / extract32 / pop / append (venom) *)
+Theorem observed_more_checks_are_template :
+  forallb (fun t => lir_eqb (snd t) (append_check (fst t))) append_observed = true /\
+  forallb (fun t => lir_eqb t (pop_newlen (LVar "len"%string))) pop_observed = true /\
+  forallb (fun t => lir_eqb t (extract32_check (LVar "ix"%string) (LVar "len"%string))) extract32_observed = true /\
+  forallb (fun t => lir_eqb t (buf_check (LVar "start"%string) (LVar "length"%string) (LVar "len"%string))) slice_observed = true /\
+  forallb (fun t => match t with (s, bnd, obs) => vlist_eqb obs (vidx_check s bnd) && vop_fresh bnd end) vsubscript_observed = true /\
+  forallb (fun t => vlist_eqb t vslice_check) vslice_observed = true /\
+  forallb (fun t => vlist_eqb t vextract32_check) vextract32_observed = true /\
+  forallb (fun t => vlist_eqb t vpop_check) vpop_observed = true /\
+  forallb (fun t => vlist_eqb (snd t) (vappend_check (fst t))) vappend_observed = true.
+Proof. repeat split; vm_compute; reflexivity. Qed.
 
 (* the emitted index check passes (and yields the index) iff 0 <= ix < bound, where ix is read as a
    two's-complement number for signed index types; otherwise it reverts *)
@@ -33,6 +46,63 @@ Theorem buffer_overflow_check_iff : forall e s l n start len src_len,
 Proof. exact buffer_overflow_check_iff_l. Qed.
 Print Assumptions buffer_overflow_check_iff.
 
+Theorem append_within_bound : forall e n count,
+  lookup e "old_darray_len"%string = Some n -> 0 <= n < W -> 0 <= count < W ->
+  leval e (append_check count) = if n <? count then Unit else Revert.
+Proof. exact append_within_bound_l. Qed.
+Print Assumptions append_within_bound.
+
+Theorem pop_nonempty : forall e n len, leval e len = Val n -> 0 <= n < W ->
+  leval e (pop_newlen len) = if 0 <? n then Val (n - 1) else Revert.
+Proof. exact pop_nonempty_l. Qed.
+Print Assumptions pop_nonempty.
+
+(* extract32 (legacy): passes and yields the index iff index + 32 <= len (index read as a non-negative
+   signed word), for byte lengths below 2^255 *)
+Theorem extract32_bounds_iff : forall e x n ix len,
+  leval e ix = Val x -> leval e len = Val n -> 0 <= x < W -> 0 <= n < HALF ->
+  leval e (extract32_check ix len) = if (x <? HALF) && (x + 32 <=? n) then Val x else Revert.
+Proof. exact extract32_bounds_iff_l. Qed.
+Print Assumptions extract32_bounds_iff.
+
+(* slice (legacy) = buffer_overflow_check_iff at (start, length, len): see observed_more_checks_are_template *)
+Theorem slice_bounds_iff : forall e s l n,
+  lookup e "start"%string = Some s -> lookup e "length"%string = Some l -> lookup e "len"%string = Some n ->
+  0 <= s < W -> 0 <= l < W -> 0 <= n < W ->
+  leval e (buf_check (LVar "start"%string) (LVar "length"%string) (LVar "len"%string)) = if s + l <=? n then Unit else Revert.
+Proof.
+  intros e s l n Hs Hl Hn Rs Rl Rn. apply buffer_overflow_check_iff_l; auto; cbn [leval lookup String.eqb Ascii.eqb Bool.eqb]; intros;
+    rewrite ?Hs, ?Hl, ?Hn; reflexivity.
+Qed.
+Print Assumptions slice_bounds_iff.
+
+(* venom front end: subscript / slice / extract32 / pop / append bounds (vpass: Some true = passes, Some false = reverts) *)
+Theorem venom_index_check_iff : forall signed e x b bound,
+  lookup e "p1"%string = Some x -> 0 <= x < W -> vop_fresh bound = true -> vval e bound = Some b -> 0 <= b < W ->
+  vpass (vsl e (vidx_check signed bound)) = Some ((0 <=? idx_value signed x) && (idx_value signed x <? b)).
+Proof. exact venom_index_check_iff_l. Qed.
+Print Assumptions venom_index_check_iff.
+
+Theorem venom_slice_bounds_iff : forall e s l n,
+  lookup e "p0"%string = Some s -> lookup e "p1"%string = Some l -> lookup e "p2"%string = Some n ->
+  0 <= s < W -> 0 <= l < W -> 0 <= n < W -> vpass (vsl e vslice_check) = Some (s + l <=? n).
+Proof. exact venom_slice_bounds_iff_l. Qed.
+Print Assumptions venom_slice_bounds_iff.
+
+Theorem venom_extract32_bounds_iff : forall e p s n,
+  lookup e "p0"%string = Some p -> lookup e "p1"%string = Some s -> lookup e "ld0"%string = Some n ->
+  0 <= s < W -> 0 <= n < W -> vpass (vsl e vextract32_check) = Some (s + 32 <=? n).
+Proof. exact venom_extract32_bounds_iff_l. Qed.
+Print Assumptions venom_extract32_bounds_iff.
+
+Theorem venom_pop_nonempty : forall e n, lookup e "ld0"%string = Some n -> 0 <= n < W ->
+  vpass (vsl e vpop_check) = Some (0 <? n).
+Proof. exact venom_pop_nonempty_l. Qed.
+
+Theorem venom_append_within_bound : forall e n count, lookup e "ld0"%string = Some n -> 0 <= n < W -> 0 <= count < W ->
+  vpass (vsl e (vappend_check count)) = Some (n <? count).
+Proof. exact venom_append_within_bound_l. Qed.
+
 (* Venom allocator: the returned block shares no byte with any reserved interval (any reserved
    set: unsorted, overlapping, empty or negative-size entries) *)
 Theorem venom_allocate_avoids_reserved : forall reserved size r,
@@ -40,24 +110,118 @@ Theorem venom_allocate_avoids_reserved : forall reserved size r,
 Proof. exact venom_allocate_avoids_reserved_l. Qed.
 Print Assumptions venom_allocate_avoids_reserved.
 
-(* Legacy allocator, PARTIAL: one allocate step is safe under the state invariant [linv]
-   (free blocks below next_mem and disjoint from live blocks; live blocks below next_mem).
-   Missing for the full legacy_alloc_inv: preservation of [linv] by deallocate (insert/merge/shrink);
-   that part is validated by the exact-output differential + executable invariant check only. *)
-Theorem legacy_alloc_inv_partial : forall st live size p st',
+(* Legacy allocator: for EVERY sequence of allocate / deallocate operations (allocation sizes > 0;
+   deallocate frees the k-th currently live block) that the allocator accepts, the live blocks are
+   pairwise disjoint, non-empty and inside [start, next_mem]; the free list is sorted, non-empty
+   blocks, non-adjacent (gap >= 1), above start and strictly below next_mem, and every free block is
+   disjoint from every live block; start <= next_mem <= size_of_mem.  (Invariant by induction over
+   fold_left lstep ops.) *)
+Theorem legacy_alloc_inv : forall ops start st live,
+  0 <= start -> pos_sizes ops -> lrun ops (linit start) = Some (st, live) ->
+  ForallOrdPairs bdisj live /\
+  Forall (fun b => start <= fst b /\ 0 < snd b /\ bend b <= next_mem st) live /\
+  chainG 1 start (free st) /\
+  Forall (fun f => bend f < next_mem st) (free st) /\
+  Forall (fun f => Forall (bdisj f) live) (free st) /\
+  start <= next_mem st <= size_of_mem st.
+Proof.
+  intros ops start st live Hs P R. destruct (legacy_alloc_inv_l ops start (st, live) Hs P R).
+  cbn [fst snd] in *. repeat split; auto; lia.
+Qed.
+Print Assumptions legacy_alloc_inv.
+
+(* one allocation step under the invariant (kept from round 1; implied by the theorem above) *)
+Theorem legacy_alloc_step_safe : forall st live size p st',
   linv st live -> legacy_allocate st size = LOk p st' ->
   Forall (bdisj (p, size)) live /\ bend (p, size) <= next_mem st' /\ size mod 32 = 0 /\ 0 <= size /\
   next_mem st <= next_mem st' /\ next_mem st' <= Z.max (size_of_mem st') (next_mem st).
 Proof. exact legacy_allocate_step_safe_l. Qed.
-Print Assumptions legacy_alloc_inv_partial.
+
+(* T-tie: the arithmetic of the model is the regenerated source (partially_allocate, _expand_memory) *)
+Theorem legacy_model_uses_generated_kernels :
+  (forall p s rest size, size < s ->
+     take_free ((p, s) :: rest) size =
+       match partially_allocate p s size with Ok (r, p', s') => Some (r, (p', s') :: rest) | Err _ => None end) /\
+  (forall st size, size mod 32 = 0 -> 0 <= size -> take_free (free st) size = None ->
+     legacy_allocate st size =
+       match expand_memory (next_mem st) (size_of_mem st) GEN_ALLOCATION_LIMIT size with
+       | Ok (p, nm, sm) => LOk p (mkL nm sm (free st)) | Err _ => LErr end).
+Proof. split; [exact take_free_head_larger | exact legacy_allocate_expand_is_generated]. Qed.
+Print Assumptions legacy_model_uses_generated_kernels.
+
+(* Legacy call frames: every transitive callee's whole frame [RESERVED, RESERVED + frame_size g) ends at or
+   below the first byte the caller's own allocator can hand out (frame_start f); own >= 0 is
+   legacy_alloc_inv's  start <= size_of_mem. *)
+Theorem frame_above_callees : forall R f g, owns_nonneg f -> desc f g -> mem_used R g <= frame_start R f.
+Proof. exact frame_above_callees_l. Qed.
+Print Assumptions frame_above_callees.
+
+(* verified checker for real frame tables (evaluated by vm_compute on the tables exported from the compiler) *)
+Theorem frames_checker_sound : forall R tbl, frames_check R tbl = true ->
+  forall f, In f tbl -> forall k g, In k (r_reach f) -> nth_error tbl k = Some g ->
+  forall v w, In v (r_vars f) -> In w (r_vars g) -> fst w + snd w <= fst v.
+Proof. exact frames_check_sound. Qed.
+Print Assumptions frames_checker_sound.
+
+(* Venom ConcretizeMemLocPass greedy loop, for any interference relation, any pinned allocations, any
+   order of placement: the result is pinned ++ news where news has the requested ids/sizes in order, and
+   every newly placed alloca shares no byte with a global allocation nor with any alloca placed before it
+   (pinned ones included) that it interferes with. *)
+Theorem concretize_interfering_disjoint : forall interf globals pinned todo,
+  exists news, concretize interf globals pinned todo = pinned ++ news /\
+               map (fun p => (p_id p, snd p)) news = todo /\
+               good_from interf globals pinned news.
+Proof. exact concretize_interfering_disjoint_l. Qed.
+Print Assumptions concretize_interfering_disjoint.
+
+(* verified checker applied (vm_compute) to the real pass output: allocas with intersecting livesets (at least
+   one of them placed by this pass) share no byte; placed allocas avoid the global allocations *)
+Theorem no_overlap_if_interfere_sound : forall globals l, no_overlap_if_interfere globals l = true ->
+  (forall i j a b, (i < j)%nat -> nth_error l i = Some a -> nth_error l j = Some b ->
+     (a_new a || a_new b) = true -> live_meet a b = true ->
+     forall x, a_off a <= x < a_off a + a_size a -> ~ (a_off b <= x < a_off b + a_size b)) /\
+  (forall a g, In a l -> a_new a = true -> In g globals ->
+     forall x, a_off a <= x < a_off a + a_size a -> ~ (fst g <= x < fst g + snd g)).
+Proof. exact no_overlap_checker_sound. Qed.
+Print Assumptions no_overlap_if_interfere_sound.
 
 (* ---- non-vacuity ---- *)
+Example concretize_nonvacuous :
+  concretize_out [(0%nat, 1%nat); (1%nat, 2%nat)] [(0, 32)] [(0%nat, 64, 64)] [(1%nat, 64); (2%nat, 32)] = [64; 128; 32] /\
+  no_overlap_if_interfere [(0, 32)] [mkA 64 64 [1; 2] false; mkA 128 64 [2; 3] true; mkA 32 32 [3] true] = true /\
+  no_overlap_if_interfere [] [mkA 64 64 [1; 2] false; mkA 96 64 [2; 3] true] = false.
+Proof. repeat split; vm_compute; reflexivity. Qed.
+
+Example frames_nonvacuous :
+  let leaf := Fn 224 [] in let mid := Fn 256 [leaf] in let other := Fn 320 [] in let top := Fn 96 [mid; other] in
+  owns_nonneg top /\ desc top leaf /\ frame_start 64 top = 544 /\ frame_size top = 576 /\ mem_used 64 leaf = 288 /\
+  frames_check 64 [mkRow 64 224 [(64, 96); (160, 128)] []; mkRow 288 480 [(288, 32)] [0%nat]] = true /\
+  frames_check 64 [mkRow 64 224 [(64, 96); (160, 128)] []; mkRow 256 480 [(256, 32)] [0%nat]] = false.
+Proof.
+  cbv zeta. split; [|split; [|repeat split; vm_compute; reflexivity]].
+  - repeat (constructor; try lia).
+  - eapply d_trans; [left; reflexivity|]. apply d_direct. left. reflexivity.
+Qed.
+
 Example index_check_nonvacuous :
   leval [("ix"%string, 4)] (idx_check true (LInt 5)) = Val 4 /\
   leval [("ix"%string, 5)] (idx_check true (LInt 5)) = Revert /\
   leval [("ix"%string, W - 1)] (idx_check true (LInt 5)) = Revert /\
   leval [("ix"%string, W - 1); ("len"%string, 3)] (idx_check false (LVar "len"%string)) = Revert /\
   leval [("ix"%string, 2); ("len"%string, 3)] (idx_check false (LVar "len"%string)) = Val 2.
+Proof. repeat split; vm_compute; reflexivity. Qed.
+
+Example more_checks_nonvacuous :
+  leval [("old_darray_len"%string, 4)] (append_check 5) = Unit /\ leval [("old_darray_len"%string, 5)] (append_check 5) = Revert /\
+  leval [("len"%string, 0)] (pop_newlen (LVar "len"%string)) = Revert /\ leval [("len"%string, 3)] (pop_newlen (LVar "len"%string)) = Val 2 /\
+  leval [("ix"%string, 8); ("len"%string, 40)] (extract32_check (LVar "ix"%string) (LVar "len"%string)) = Val 8 /\
+  leval [("ix"%string, 9); ("len"%string, 40)] (extract32_check (LVar "ix"%string) (LVar "len"%string)) = Revert /\
+  leval [("ix"%string, 0); ("len"%string, 31)] (extract32_check (LVar "ix"%string) (LVar "len"%string)) = Revert /\
+  vpass (vsl [("p1"%string, 4)] (vidx_check true (VLit 5))) = Some true /\
+  vpass (vsl [("p1"%string, W - 1)] (vidx_check true (VLit 5))) = Some false /\
+  vpass (vsl [("p1"%string, 3); ("ld0"%string, 3)] (vidx_check false (VVar "ld0"%string))) = Some false /\
+  vpass (vsl [("p0"%string, 10); ("p1"%string, 5); ("p2"%string, 15)] vslice_check) = Some true /\
+  vpass (vsl [("p0"%string, W - 1); ("p1"%string, 5); ("p2"%string, 15)] vslice_check) = Some false.
 Proof. repeat split; vm_compute; reflexivity. Qed.
 
 Example buffer_check_nonvacuous :
@@ -71,6 +235,12 @@ Example venom_alloc_nonvacuous :
   venom_allocate [(64, 32); (0, 64)] 0 = 0 /\
   venom_allocate [] 32 = 0.
 Proof. repeat split; vm_compute; reflexivity. Qed.
+
+Example legacy_inv_nonvacuous :
+  pos_sizes [OAlloc 64; OAlloc 32; OAlloc 32; OFree 1%nat; OAlloc 32; OFree 0%nat; OAlloc 96] /\
+  lrun [OAlloc 64; OAlloc 32; OAlloc 32; OFree 1%nat; OAlloc 32; OFree 0%nat; OAlloc 96] (linit 64) =
+    Some (mkL 288 288 [(64, 64)], [(160, 32); (128, 32); (192, 96)]).
+Proof. split; [repeat constructor|vm_compute; reflexivity]. Qed.
 
 Example legacy_alloc_nonvacuous :
   run_ops [(0, 64); (0, 32); (0, 32); (1, 1); (0, 32); (1, 0); (0, 96)] (mkL 64 64 []) [] =
